@@ -22,7 +22,7 @@ def run(tier, seed):
     import formulas.cell as CE, formulas.excel as EX, formulas.functions as F, formulas.builder as FB
     ck.encode(CE.CellWrapper.__call__, CE.Cell.compile, EX.ExcelModel.complete, EX.ExcelModel.from_dict, F.not_implemented,
               FB.AstBuilder.__init__)
-    ck.assume('the fault schedule (which of 8 fault kinds each of three formula cells carries, finished or not) is chosen by boolean selectors; every explored path builds and calculates the real model natively',
+    ck.assume('the fault schedule (which of 10 fault kinds each of three formula cells carries, finished or not) is chosen by boolean selectors; every explored path builds and calculates the real model natively',
               'missing / unreadable workbook FILES are represented by references to a book that does not exist on disk (dictionary-built models)')
     ck.out_of_scope('workbooks read from .xlsx files', 'dependency graphs larger than the 10-cell template', 'faults inside defined names')
     ck.check_known_witness('C14-absent-range-overrides-known-cells', WITNESS)
@@ -30,10 +30,10 @@ def run(tier, seed):
     src = open(os.path.join(ROOT, 'harness', 'c14_faults.py')).read()
     hs, batch = [], Batch()
     try:
-        for f1 in range(8):
+        for f1 in range(10):
             h = Harness(ck, 'c14_faults_%d' % f1, src.replace('__F1__', str(f1))); hs.append(h)
             batch.add(h, 170 if quick else 900, only=['faults_ok'],
-                      bounds='fault kind %d on B1, any of 8 kinds on B2 and on T!A1, finished or not: 128 fault schedules' % f1)
+                      bounds='fault kind %d on B1, any of 10 kinds on B2 and on T!A1, finished or not: 200 fault schedules' % f1)
         batch.run()
     finally:
         for h in hs:
